@@ -18,6 +18,8 @@
 //                          accessors), unchecked_get<T>, visit<R>, valueless_by_exception, variant_npos, hash<variant>,
 //                          source types for which etl finds no unique alternative (e.g. variant<int,char>(1L)) - a source type is
 //                          compared only where both libraries accept it.
+//   visit / visit_with_index over variant lists of different sizes ((2,3) (3,2) (2,3,2) (1,4) (4,1) (3,4)), every index tuple,
+//                          lvalue / const / rvalue variants, void and reference-returning visitors (visit<R> does not exist);
 //   further configurations: variant<NonTriv,int,NonTriv,int> (duplicated alternative types, index-based operations only),
 //                          converting construction / assignment from non-arithmetic sources into variants holding bool.
 // Exclusion tags understood by the generator (for known findings, none recorded at the time of writing):
@@ -1028,12 +1030,145 @@ struct Sel {
     }
 };
 
+// ================================================================== visit over variants with DIFFERENT numbers of alternatives
+// Every index tuple of the variant lists (2,3) (3,2) (2,3,2) (1,4) (4,1) (3,4) is visited; the alternatives are distinct tag
+// types, so the visitor records exactly which alternative of which variant it received (family, index, value).  Compared with
+// std::visit over std::variant of the same tag types; visit_with_index must additionally report the active indices.
+// Forms: 0 lvalues, 1 const lvalues, 2 rvalues, 3 visit_with_index, 4 visitor returning void, 5 visitor returning a reference
+// (etl::visit returns by value: the referenced value is compared).  Stateless: a = list, b = flat tuple index, c = form.
+template <int F, int I>
+struct Tag {
+    static constexpr int fam = F, idx = I;
+    int v{0};
+};
+template <template <typename...> class V, int F, typename Seq>
+struct MkVar;
+template <template <typename...> class V, int F, std::size_t... I>
+struct MkVar<V, F, std::index_sequence<I...>> {
+    using type = V<Tag<F, static_cast<int>(I)>...>;
+};
+template <template <typename...> class V, int F, std::size_t N>
+using tag_variant = typename MkVar<V, F, std::make_index_sequence<N>>::type;
+
+struct VisitMix {
+    static constexpr std::uint32_t NLIST = 6, NFORM = 6;
+    static constexpr std::uint32_t list_size[NLIST] = {6, 6, 12, 4, 4, 12};
+    static auto list_name(std::uint32_t a) -> char const*
+    {
+        static char const* const nm[NLIST] = {"(2,3)", "(3,2)", "(2,3,2)", "(1,4)", "(4,1)", "(3,4)"};
+        return nm[a % NLIST];
+    }
+    struct Enc { // which alternatives (family, index) and values the visitor received, in argument order
+        template <typename... Ts>
+        auto operator()(Ts const&... xs) const -> long
+        {
+            long r = 0;
+            ((r = r * 1000 + Ts::fam * 100 + Ts::idx * 10 + xs.v), ...);
+            return r;
+        }
+    };
+    template <template <typename...> class V, int F, std::size_t N>
+    static auto make(std::size_t k, int value) -> tag_variant<V, F, N>
+    {
+        tag_variant<V, F, N> v;
+        with_index<N>(k, [&](auto I) { v.template emplace<decltype(I)::value>(Tag<F, static_cast<int>(decltype(I)::value)>{value}); });
+        return v;
+    }
+    static long g_sink; // target of the reference-returning visitor
+
+    // Full: all six forms; otherwise only visit on lvalues and visit_with_index (the other forms share the dispatch code)
+    template <bool Full, std::size_t... Ns>
+    static auto list(std::uint32_t a, std::uint32_t flat, std::uint32_t form) -> std::string
+    {
+        constexpr std::size_t sizes[] = {Ns...};
+        std::size_t idx[sizeof...(Ns)]{};
+        {
+            auto f = static_cast<std::size_t>(flat);
+            for (std::size_t p = 0; p < sizeof...(Ns); ++p) { // first variant is the least significant digit
+                idx[p] = f % sizes[p];
+                f /= sizes[p];
+            }
+        }
+        return [&]<std::size_t... P>(std::index_sequence<P...>) -> std::string {
+            auto et = std::make_tuple(make<etl::variant, static_cast<int>(P) + 1, Ns>(idx[P], static_cast<int>(1 + P + 2 * idx[P]))...);
+            auto st = std::make_tuple(make<std::variant, static_cast<int>(P) + 1, Ns>(idx[P], static_cast<int>(1 + P + 2 * idx[P]))...);
+            long want = std::apply([](auto&... vs) { return std::visit(Enc{}, vs...); }, st);
+            long got  = -1;
+            std::string what = "visit";
+            if constexpr (!Full) { form = (form % 2) * 3; }
+            switch (Full ? form % NFORM : form) {
+            case 0: got = std::apply([](auto&... vs) { return etl::visit(Enc{}, vs...); }, et); break;
+            case 1:
+                if constexpr (Full) { got = std::apply([](auto const&... vs) { return etl::visit(Enc{}, vs...); }, std::as_const(et)), what = "visit (const variants)"; }
+                break;
+            case 2:
+                if constexpr (Full) { got = std::apply([](auto&... vs) { return etl::visit(Enc{}, std::move(vs)...); }, et), what = "visit (rvalue variants)"; } // Enc takes const&: nothing is moved
+                break;
+            case 3: {
+                what       = "visit_with_index";
+                bool idxok = true;
+                got        = std::apply([&](auto&... vs) {
+                    return etl::visit_with_index([&](auto... ps) {
+                        std::size_t seen[] = {static_cast<std::size_t>(ps.index.value)...};
+                        for (std::size_t p = 0; p < sizeof...(Ns); ++p) { idxok = idxok && seen[p] == idx[p]; }
+                        return Enc{}(ps.value()...);
+                    }, vs...);
+                }, et);
+                if (!idxok) { got = -2; }
+                break;
+            }
+            case 4: {
+                if constexpr (Full) {
+                    what  = "visit (void visitor)";
+                    int n = 0;
+                    std::apply([&](auto&... vs) { etl::visit([&](auto const&... xs) { ++n, got = Enc{}(xs...); }, vs...); }, et);
+                    if (n != 1) { got = -3; }
+                }
+                break;
+            }
+            default: {
+                if constexpr (Full) {
+                    what = "visit (visitor returning a reference)";
+                    got  = std::apply([](auto&... vs) { return etl::visit([](auto const&... xs) -> long& { return g_sink = Enc{}(xs...); }, vs...); }, et);
+                }
+                break;
+            }
+            }
+            if (got == want) { return ""; }
+            std::string at = "(";
+            for (std::size_t p = 0; p < sizeof...(Ns); ++p) { at += (p != 0 ? "," : "") + std::to_string(idx[p]); }
+            return std::string(what) + " over variants with " + list_name(a) + " alternatives holding " + at + "): visitor saw " + std::to_string(got) + ", std::visit " + std::to_string(want)
+                 + " (3 digits per argument: family, index, value; negative: wrong indices / call count)";
+        }(std::make_index_sequence<sizeof...(Ns)>{});
+    }
+    static auto run(OpsCase const& k, int stats) -> std::string
+    {
+        for (auto const& op : k.ops) {
+            auto a    = op.a % NLIST;
+            auto flat = op.b % list_size[a];
+            std::string d;
+            switch (a) {
+            case 0: d = list<true, 2, 3>(a, flat, op.c); break;
+            case 1: d = list<false, 3, 2>(a, flat, op.c); break;
+            case 2: d = list<true, 2, 3, 2>(a, flat, op.c); break;
+            case 3: d = list<false, 1, 4>(a, flat, op.c); break;
+            case 4: d = list<false, 4, 1>(a, flat, op.c); break;
+            default: d = list<false, 3, 4>(a, flat, op.c); break;
+            }
+            if (stats > 0) { vf::nontrivial_count(); }
+            if (!d.empty()) { return d; }
+        }
+        return "";
+    }
+};
+long VisitMix::g_sink = 0;
+
 // ------------------------------------------------------------------ configuration table
 struct Config {
     char const* name;
     std::string (*run)(OpsCase const&, int);
     std::size_t nalt;
-    int kind{0}; // 0 history configuration of Cfg<...>, 1 stateless NaN comparisons, 2 duplicated alternatives (Dup), 3 stateless source selection (Sel)
+    int kind{0}; // 0 history configuration of Cfg<...>, 1 stateless NaN comparisons, 2 duplicated alternatives (Dup), 3 stateless source selection (Sel), 4 stateless multi-variant visit (VisitMix)
 };
 // One source, several executables: -DC07_ONLY=<i> builds only configuration i (the registry lists one harness per
 // configuration so that they compile in parallel); configuration ids in case strings are the same in every build.
@@ -1067,6 +1202,11 @@ struct Config {
 #else
     #define C07_RUN5 nullptr
 #endif
+#if !defined(C07_ONLY) || C07_ONLY == 0
+    #define C07_RUN6 &VisitMix::run
+#else
+    #define C07_RUN6 nullptr
+#endif
 Config const configs[] = {
     {"variant<int,char>", C07_RUN0, 2},
     {"variant<int,NonTriv,Small>", C07_RUN1, 3},
@@ -1074,6 +1214,7 @@ Config const configs[] = {
     {"variant<int,double> relational incl. NaN", C07_RUN3, 0, 1},
     {"variant<NonTriv,int,NonTriv,int>", C07_RUN4, 4, 2},
     {"variant converting construction / assignment from non-arithmetic sources", C07_RUN5, 0, 3},
+    {"visit over variants of different sizes", C07_RUN6, 0, 4},
 };
 constexpr std::uint32_t nconfigs = sizeof(configs) / sizeof(configs[0]);
 
@@ -1173,6 +1314,24 @@ void vf_run(vf::Ctx& c)
                             vf::eval(sub);
                             auto d = run_case(k, 1);
                             if (!d.empty()) { vf::mismatch(sub, k, d); }
+                        }
+                    }
+                }
+                continue;
+            }
+            if (configs[ci].kind == 4) {
+                // every index tuple of every variant list x every visit form
+                for (std::uint32_t a = 0; a < VisitMix::NLIST; ++a) {
+                    for (std::uint32_t b = 0; b < VisitMix::list_size[a]; ++b) {
+                        for (std::uint32_t f = 0; f < VisitMix::NFORM; ++f) {
+                            if (!c.mine(n++)) { continue; }
+                            OpsCase k;
+                            k.cfg = ci;
+                            k.ops.push_back(RawOp{Q_VISIT2, a, b, f});
+                            vf::Flight<OpsCase> fl("enum_visit_mixed_sizes", k);
+                            vf::eval("enum_visit_mixed_sizes");
+                            auto d = run_case(k, 1);
+                            if (!d.empty()) { vf::mismatch("enum_visit_mixed_sizes", k, d); }
                         }
                     }
                 }
@@ -1280,7 +1439,7 @@ void vf_run(vf::Ctx& c)
     // E1: random histories of <= 25 ops, every configuration
     int per_cfg = (c.thorough() ? 50000 : 3000) / std::max(1, c.nshards) + 1; // per type over all shards: quick 3k, thorough 50k
     for (std::uint32_t ci = 0; ci < nconfigs; ++ci) {
-        if (configs[ci].run == nullptr || configs[ci].kind == 1 || configs[ci].kind == 3) { continue; }
+        if (configs[ci].run == nullptr || configs[ci].kind == 1 || configs[ci].kind == 3 || configs[ci].kind == 4) { continue; }
         auto gen = rc::gen::map(vf::gen_history(1, configs[ci].kind == 2 ? std::uint32_t{D_NCODES} : std::uint32_t{NCODES}, 25), [ci](OpsCase k) {
             k.cfg = ci;
             return k;
